@@ -211,6 +211,11 @@ let () =
                            case_viol := true; incr viol;
                            Printf.printf "VIOL case=%s line=%d c07 chunk sizes: a chunk that is not the last holds fewer than %s samples after op %s: resolve=%s new-writer-records=%s\n"
                              !case_id !ln (string_of_z nz) opn (join_z rd.dc_sizes) (join_z new_w) end;
+                         if not ok && not !case_viol && !case_tag = "renamed-" then begin
+                           (* known finding C07-same-types-other-keys: fixed histories in which a collector that is not
+                              schema-aware is given a document with the metric types of its chunk and other key names *)
+                           case_viol := true;
+                           Printf.printf "KNOWN c07-renamed case=%s line=%d c07_ok=false after op %s (the sample decodes under the chunk's key names)\n" !case_id !ln opn end;
                          if not ok && not !case_viol then begin
                            case_viol := true; incr viol;
                            Printf.printf "VIOL case=%s line=%d c07_ok=false after op %s: decoded(writer)=%d docs, decoded(resolve)=%d docs, expected total=%d, info=%s sizes=%s cap=%s\n"
